@@ -95,6 +95,23 @@ class CallArg(Change):
 TokenRange = Tuple[Token, Token]
 
 
+def with_parentheses(atok, first_token, last_token, braces=None) -> TokenRange:
+    """Extends a token range over the parentheses around an element like `(1)`,
+    which are not part of the node itself (but not over the braces of the
+    container or call)."""
+    while True:
+        prev_token = atok.prev_token(first_token)
+        next_token = atok.next_token(last_token)
+        if (
+            prev_token.string == "("
+            and next_token.string == ")"
+            and (braces is None or prev_token.startpos > braces[0].startpos)
+        ):
+            first_token, last_token = prev_token, next_token
+        else:
+            return first_token, last_token
+
+
 def brace_tokens(source, node) -> TokenRange:
     first_token, *_, end_token = source.asttokens().get_tokens(node)
     return first_token, end_token
@@ -197,9 +214,11 @@ def apply_all(all_changes: List[Change], recorder: ChangeRecorder):
                 if isinstance(change, ListInsert)
             }
 
+            braces = brace_tokens(source, parent)
+
             def list_token_range(entry):
                 r = list(source.asttokens().get_tokens(entry))
-                return r[0], r[-1]
+                return with_parentheses(source.asttokens(), r[0], r[-1], braces)
 
             generic_sequence_update(
                 source,
@@ -216,16 +235,19 @@ def apply_all(all_changes: List[Change], recorder: ChangeRecorder):
             }
             atok = source.asttokens()
 
-            def arg_token_range(node):
-                if isinstance(node.parent, ast.keyword):
-                    node = node.parent
-                r = list(atok.get_tokens(node))
-                return r[0], r[-1]
-
             braces_left = atok.next_token(list(atok.get_tokens(parent.func))[-1])
             assert braces_left.string == "("
             braces_right = list(atok.get_tokens(parent))[-1]
             assert braces_right.string == ")"
+
+            def arg_token_range(node):
+                value_tokens = list(atok.get_tokens(node))
+                first, last = with_parentheses(
+                    atok, value_tokens[0], value_tokens[-1], (braces_left, braces_right)
+                )
+                if isinstance(node.parent, ast.keyword):
+                    first = list(atok.get_tokens(node.parent))[0]
+                return first, last
 
             to_insert = DefaultDict(list)
 
@@ -267,9 +289,13 @@ def apply_all(all_changes: List[Change], recorder: ChangeRecorder):
             }
 
             def dict_token_range(key, value):
+                atok = source.asttokens()
+                key_tokens = list(atok.get_tokens(key))
+                value_tokens = list(atok.get_tokens(value))
+                braces = brace_tokens(source, parent)
                 return (
-                    list(source.asttokens().get_tokens(key))[0],
-                    list(source.asttokens().get_tokens(value))[-1],
+                    with_parentheses(atok, key_tokens[0], key_tokens[-1], braces)[0],
+                    with_parentheses(atok, value_tokens[0], value_tokens[-1], braces)[1],
                 )
 
             generic_sequence_update(
